@@ -16,7 +16,7 @@ func c13Gen(rng *rand.Rand, tier string) []Case {
 	var out []Case
 	n := 400
 	if tier == "thorough" {
-		n = 30000
+		n = 6000
 	}
 	for i := 0; i < n; i++ {
 		o := snapGenOpts{maxEvents: 30, leave: true}
